@@ -132,7 +132,7 @@ def run(ctx):
     ctx.assumptions += [
         "a backing-store cell holding 0 is merged with an absent cell in the state key (reads cannot tell them apart)",
         "counter values are excluded from the state key (checked per transition by C09) except for zero / non-zero",
-        "write values are one distinctive constant per width plus a second byte value",
+        "write values are one distinctive constant per width plus a second byte value; the 'wordz' configurations add stores of 0 and run over a sparsely preloaded backing store",
     ]
     for cfg, depth in configs(ctx):
         cachebfs.explore(ctx, cfg, WANT, depth, state_cap=600000)
@@ -142,6 +142,9 @@ def run(ctx):
         cachebfs.explore(ctx, Cfg(0, 0, 4, "wt", "plru", 0, "word", True, "base"), WANT, 4)
         # the only kind of geometry in which tag 0 (the tag of a never-filled way) belongs to a valid data address
         cachebfs.explore(ctx, Cfg(12, 1, 1, ("wb", "wt")[ctx.seed % 2], "lru", 0, "word", False, "base"), WANT, 1)
+    # stores of the value 0 over a sparsely preloaded store (only every other word exists below the cache)
+    for kind, g, depth in (("wb", (0, 1, 1), 4), ("wb", (1, 1, 2), 3), ("wt", (0, 1, 2), 3), ("wb", (0, 2, 1), 3)) + ((("wb", (0, 1, 2), 4), ("wt", (1, 1, 1), 4)) if not ctx.quick else ()):
+        cachebfs.explore(ctx, Cfg(*g, kind, "lru", 0, "wordz", 2, "base"), WANT, depth + (0 if ctx.quick else 1))
     ctx.require("cache-eviction", "cache-fill", "rejected")
     for L in range(1, (3 if ctx.quick else 4) + 1):
         t0 = time.time()
